@@ -68,6 +68,7 @@ def opts(tier):
     o.nasty_names = 0.03
     o.props = False
     o.short_last_p = 0.05
+    o.declared_huge_p = 0.01
     o.equal_shapes_p = 0.15
 
     def scaling(rng, spec, ctype):
